@@ -163,6 +163,7 @@ def run(ctx):
         for sig, what in C11.one(*args):
             if sig.startswith('stale-cache'):
                 ctx.violation('in-flight-' + sig + ':' + point + ':' + entry, what, 'from falsify.C11 import replay\nreplay("one", *%r)\n' % (args,))
+    regcommon.first_after_mutation(ctx, 'C05')
     trials = 1200 if ctx.tier == 'quick' else 8000
     for t in range(trials):
         if ctx.out_of_time() or ctx.too_many():
